@@ -21,6 +21,11 @@ type Sec struct {
 	Vol     *Vol   // FV image section
 	Ext     bool   // leaf section written with the extended common header (size field 0xFFFFFF + 32-bit size)
 	               // although it is smaller than 16 MiB; fiano keeps leaf sections as they are
+	// ExtAny: the same header form on a section of ANY kind the parser honours it for (FV-image,
+	// GUID-defined, UI, version, dependency expression, ...). Legal, but fiano regenerates those sections
+	// with the short header, so such images are outside the C01 grammar (SpecString: ok=false); used by
+	// the parse-only properties (C04, C05, C09). Opt-in: only Diversify sets it.
+	ExtAny bool
 }
 
 type File struct {
@@ -122,11 +127,15 @@ func put3(b []byte, v int) { b[0], b[1], b[2] = byte(v), byte(v>>8), byte(v>>16)
 // EmitSec returns the bytes of a section (common header + body), without trailing padding.
 func (e *emitter) sec(s *Sec, base int) []byte {
 	var body []byte
+	hdr := 4 // common header length (for the offsets of the field map)
+	if s.ExtAny && extHonoured(s.Type) {
+		hdr = 8
+	}
 	switch {
 	case s.Vol != nil:
-		body = e.vol(s.Vol, base+4)
+		body = e.vol(s.Vol, base+hdr)
 	case s.Type == 0x02:
-		doff := 24 + len(s.GDExtra)
+		doff := 20 + hdr + len(s.GDExtra)
 		body = append(body, s.GUID[:]...)
 		body = binary.LittleEndian.AppendUint16(body, uint16(doff))
 		body = binary.LittleEndian.AppendUint16(body, s.GDAttrs)
@@ -139,7 +148,7 @@ func (e *emitter) sec(s *Sec, base int) []byte {
 	out := make([]byte, 4, n+4)
 	put3(out, n)
 	out[3] = s.Type
-	if n >= 0xFFFFFF || (s.Ext && s.Vol == nil && isLeafType(s.Type)) { // extended section header: 0xFFFFFF, type, 32-bit size
+	if n >= 0xFFFFFF || (s.Ext && s.Vol == nil && isLeafType(s.Type)) || hdr == 8 { // extended section header: 0xFFFFFF, type, 32-bit size
 		n += 4
 		put3(out, 0xFFFFFF)
 		out = binary.LittleEndian.AppendUint32(out, uint32(n))
@@ -147,8 +156,8 @@ func (e *emitter) sec(s *Sec, base int) []byte {
 	out = append(out, body...)
 	e.fields = append(e.fields, Field{"sec.size", base, 3, n, 4}, Field{"sec.type", base + 3, 1, n - 3, 4})
 	if s.Type == 0x02 {
-		e.fields = append(e.fields, Field{"sec.gd.dataoff", base + 20, 2, n - 20, 24},
-			Field{"sec.gd.attrs", base + 22, 2, n - 22, 24})
+		e.fields = append(e.fields, Field{"sec.gd.dataoff", base + hdr + 16, 2, n - hdr - 16, 24},
+			Field{"sec.gd.attrs", base + hdr + 18, 2, n - hdr - 18, 24})
 	}
 	return out
 }
@@ -216,10 +225,14 @@ func (e *emitter) file(f *File, base int) []byte {
 }
 
 // PadFile builds the pad file fiano's CreatePadFile would build for erase polarity 0xFF.
-func PadFile(size int) []byte {
-	f := &File{Type: 0xF0, State: 0xF8, Body: nil}
+func PadFile(size int) []byte { return PadFilePol(size, 0xFF) }
+
+// PadFilePol builds a pad file for erase polarity pol (0xFF or 0x00): GUID and body are erased
+// bytes, the state is "data valid" (bits 0..2) in the sense of the polarity.
+func PadFilePol(size int, pol byte) []byte {
+	f := &File{Type: 0xF0, State: 0x07 ^ pol, Body: nil}
 	for i := range f.GUID {
-		f.GUID[i] = 0xFF
+		f.GUID[i] = pol
 	}
 	hl := 24
 	if size >= 0xFFFFFF {
@@ -227,7 +240,7 @@ func PadFile(size int) []byte {
 	}
 	f.Body = make([]byte, size-hl)
 	for i := range f.Body {
-		f.Body[i] = 0xFF
+		f.Body[i] = pol
 	}
 	e := &emitter{}
 	return e.file(f, 0)
@@ -281,7 +294,7 @@ func (e *emitter) vol(v *Vol, base int) []byte {
 				start = dataOff - hl
 			}
 			if start != len(out) {
-				out = append(out, PadFile(start-len(out))...)
+				out = append(out, PadFilePol(start-len(out), pol)...)
 			}
 		}
 		out = append(out, e.file(f, base+len(out))...)
@@ -456,6 +469,15 @@ func GenSec(r *Rng, o Opts, depth int) *Sec {
 		}
 	}
 	return s
+}
+
+// extHonoured: the section types for which fiano's parser reads the extended common header
+func extHonoured(t byte) bool {
+	switch t {
+	case 0x00, 0x01, 0x02, 0x03, 0x10, 0x11, 0x12, 0x13, 0x14, 0x15, 0x16, 0x17, 0x18, 0x19, 0x1b, 0x1c:
+		return true
+	}
+	return false
 }
 
 // isLeafType: section types that fiano neither interprets nor regenerates and that may use the
